@@ -18,6 +18,10 @@ CLAIMED = {
          "The structural cause of the Open/Close race (conditional increment not being one atomic step) and the release pairing are decided on all paths; schedules are not explored.", "DESIGN.md §2 C08"),
  "C09": ("static analysis: must-follow rule (every cursor move is followed by the visibility filter on all paths), comparator role table, freshness/ordering rule for Refresh, decision table of the filter",
          "Necessary structural conditions of exact positioning decided on every path of the iterator methods.", "DESIGN.md §2 C09"),
+ "C11": ("static analysis: error-discipline dataflow (every error result in the restore call graph must reach a return/record), must-pass-through length checks for manifest-sized slices, producer/consumer shape rule for unbuffered work channels, must-pass-through of checksum verification (decided as a finite decision table) and error scan before acceptance, path rule on DecodeItem's returns",
+         "Error discipline, bounded indexing and worker/producer shape decided on every path of the restore call graph — exactly the fault space (any byte of any file) a test cannot enumerate and a path rule does not need to.", "DESIGN.md §2 C11"),
+ "C12": ("static analysis: error-discipline dataflow over the backup call graph incl. loop-carried overwrite detection, named-result overwrite rule for deferred closures, guard-dominance of manifest writes on the success of what they describe, handshake error propagation",
+         "The structural conditions without which StoreToDisk reports success for a partial backup, decided on every path; what a crash image contains is not decided.", "DESIGN.md §2 C12"),
  "C01": ("static analysis: finite-domain decision-table extraction of the visibility predicates (SSA interpreter over epoch orderings), guard-dominance on the collector hand-off, freshness/who-may-write analysis of item headers and payloads, must-precede ordering in NewSnapshot",
          "Necessary structural conditions of snapshot isolation decided on every path and call site of the resolved program (SSA + must-facts + VTA call graph). Not a proof of isolation over all schedules.", "DESIGN.md §2 C01"),
 }
